@@ -190,9 +190,278 @@ class Prop(SeqProp):
                       f"parse c {e('a,' + chr(34) + 'b' + chr(34) * 2 + ',' + chr(34) + ',c')}", "typed 1", "json 1", "recfile 1"],
                      {}, "quoting, lone empty field, shared buffer")]
 
+    # ---- mutable record files of CSV records with k string fields: the Lean machine `recfile` (Model/RecFile.lean) ----------
+    def gen_recfile_case(self, rng):
+        e = enc_str
+        k = rng.choice([1, 2, 2, 3])
+
+        def fields(n=None):
+            return [gen_str(rng).replace("\r", "").replace("\n", "") for _ in range(k if n is None else n)]
+
+        def line_of(fs):
+            q = rng.random()
+            if q < 0.5:
+                import csv, io
+                b = io.StringIO()
+                csv.writer(b, delimiter=",").writerow(fs)
+                return b.getvalue().rstrip("\r\n")
+            return ",".join('"' + f.replace('"', '""') + '"' for f in fs)  # every field quoted, needed or not
+
+        lines = []
+        for _ in range(rng.choice([0, 1, 2, 3, 5])):
+            q = rng.random()
+            n = k if q < 0.8 else (k + 1 if q < 0.9 else max(0, k - 1))  # a surplus field is dropped, a missing one raises
+            lines.append(line_of(fields(n)))
+        lines = [l for l in lines if "\n" not in l and "\r" not in l]
+        content = "".join(l + "\n" for l in lines)
+        if lines and rng.random() < 0.2:
+            content = content[:-1]  # unterminated last line
+        ops = [f"fields {k}", "open " + e(content), "recs"]
+        cur = len(lines)
+        for _ in range(rng.randint(2, 14)):
+            q = rng.random()
+            ri = lambda: rng.randint(-cur - 1, cur + 1)
+            fs = " ".join(e(f) for f in fields())
+            if q < 0.14:
+                ops.append(f"set {ri()} {fs}")
+            elif q < 0.28:
+                ops.append(f"insert {ri()} {fs}"); cur += 1
+            elif q < 0.4:
+                ops.append(f"append {fs}"); cur += 1
+            elif q < 0.5:
+                ops.append(f"del {ri()}"); cur = max(0, cur - 1)
+            elif q < 0.58:
+                ops.append(rng.choice(["pop", f"pop {ri()}"])); cur = max(0, cur - 1)
+            elif q < 0.68:
+                ops.append("reverse")
+            elif q < 0.78:
+                ops.append(f"get {ri()}")
+            elif q < 0.86:
+                ops.append("recs")
+            elif q < 0.9:
+                ops.append("len")
+            elif q < 0.94:
+                ops.append("slots")
+            else:
+                ops.append("save " + e(rng.choice(["\n", "\n", "\r\n", "\t", ""])))
+        ops += ["recs", "slots", "save " + e("\n")]
+        return Case(ops, {"machine": "recfile", "variant": rng.choice(["MutableRecordFile", "MutableMemoryMappedRecordFile"])
+                          if content else "MutableRecordFile"})
+
+    def run_recfile_impl(self, case):
+        """the real mutable record file classes, line by line against the machine `recfile`"""
+        import csv
+        from dataclasses import make_dataclass
+        from windpyutils import files
+        e = enc_str
+        out = []
+        f = None
+        R = None
+        k = 2
+        offs = {}
+        src = self.path("recm_src.txt")
+        dst = self.path("recm_dst.txt")
+
+        def mkclass(k):
+            return make_dataclass(f"RecM{k}", [(f"f{j}", str) for j in range(k)], bases=(files.CSVRecord,))
+
+        def show(r):
+            return ",".join(e(getattr(r, f"f{j}")) for j in range(k))
+
+        def mk(ws):
+            fs = [dec_str(w) for w in ws]
+            return R(*fs) if len(fs) == k else None
+
+        def errname(ex):
+            if isinstance(ex, csv.Error):
+                return "Error"
+            return err_name(ex)
+
+        try:
+            for op in case.ops:
+                w = op.split()
+                try:
+                    if w[0] == "fields":
+                        k = int(w[1]); R = mkclass(k); out.append("ok")
+                    elif w[0] == "open":
+                        if f is not None:
+                            f.close()
+                        text = dec_str(w[1])
+                        with open(src, "w", newline="", encoding="utf-8") as fh:
+                            fh.write(text)
+                        # byte offset of every line of the source -> its number (an untouched position holds the offset)
+                        offs, o = {}, 0
+                        for ln in text.split("\n")[:(-1 if text.endswith("\n") or text == "" else None)]:
+                            offs[o] = len(offs)
+                            o += len((ln + "\n").encode("utf-8"))
+                        f = getattr(files, case.meta.get("variant", "MutableRecordFile"))(src, R)
+                        f.open(); out.append("ok")
+                    elif w[0] == "len":
+                        out.append(f"ret {len(f)}")
+                    elif w[0] == "get":
+                        out.append("ret " + show(f[int(w[1])]))
+                    elif w[0] == "set":
+                        f[int(w[1])] = mk(w[2:]); out.append("ok")
+                    elif w[0] == "insert":
+                        f.insert(int(w[1]), mk(w[2:])); out.append("ok")
+                    elif w[0] == "append":
+                        f.append(mk(w[1:])); out.append("ok")
+                    elif w[0] == "del":
+                        del f[int(w[1])]; out.append("ok")
+                    elif w[0] == "pop":
+                        out.append("ret " + show(f.pop(int(w[1])) if len(w) > 1 else f.pop()))
+                    elif w[0] == "reverse":
+                        f.reverse(); out.append("ok")
+                    elif w[0] == "recs":
+                        items = []
+                        for i in range(len(f)):
+                            try:
+                                items.append(show(f[i]))
+                            except (csv.Error, TypeError):
+                                items.append("?")
+                        out.append("list " + "|".join(items))
+                    elif w[0] == "slots":
+                        ls = getattr(f, "_lines", None)
+                        if not isinstance(ls, list):
+                            out.append("wf:absent")
+                        else:
+                            out.append("list " + ",".join((f"s{offs[x]}" if x in offs else f"s?{x}") if isinstance(x, int)
+                                                          else "t" + e(x) for x in ls))
+                    elif w[0] == "save":
+                        le = dec_str(w[1])
+                        if os.path.exists(dst):
+                            os.remove(dst)
+                        f.save(dst, le) if le != "\n" else f.save(dst)
+                        with open(dst, "r", newline="", encoding="utf-8") as fh:
+                            out.append("ret " + e(fh.read()))
+                    else:
+                        out.append("bad-op")
+                except BaseException as ex:  # noqa
+                    if isinstance(ex, (KeyboardInterrupt, SystemExit)):
+                        raise
+                    out.append(f"err {errname(ex)}")
+        finally:
+            if f is not None:
+                try:
+                    f.close()
+                except Exception:
+                    pass
+        return out
+
+    def first_diff(self, model_out, impl_out):
+        # `slots` looks at a private attribute (which positions still point into the source file): when it is not there any
+        # more nothing is compared — what `save` writes for those positions is compared in any case
+        for i, (a, b) in enumerate(zip(model_out, impl_out)):
+            if a != b and b != "wf:absent":
+                return i
+        return None
+
+    def observable_kind(self, case, i, model_line, impl_line):
+        if case.meta.get("machine") == "recfile" and case.ops[i].startswith("slots"):
+            return "MO"
+        return "PO"
+
+    def oracle_recfile(self, case, impl_out):
+        """the property on the implementation's run: the file presents the list of records a Python list would hold after the
+        same edits (records read from a source line = what the csv module reads from it), IndexError where a list raises, and
+        the file saved with '\n' reopens to the same records"""
+        import csv
+        k = 2
+        ref = None  # list of field lists; None inside = a line that does not load
+
+        def load(line):
+            try:
+                row = next(iter(csv.reader([line], delimiter=",")), [])
+            except csv.Error:
+                return None
+            return list(row[:k]) if len(row) >= k else None
+
+        def show(r):
+            return "?" if r is None else ",".join(enc_str(x) for x in r)
+
+        def idx(i, n):
+            return i + n if i < 0 else i
+
+        for i, (op, line) in enumerate(zip(case.ops, impl_out)):
+            w = op.split()
+            if w[0] == "fields":
+                k = int(w[1])
+            elif w[0] == "open":
+                text = dec_str(w[1])
+                lines = text.split("\n")
+                if lines and lines[-1] == "":
+                    lines.pop()
+                ref = [load(l) for l in lines]
+            elif ref is None:
+                continue
+            elif w[0] == "len":
+                if line != f"ret {len(ref)}":
+                    return f"op {i} len: {line!r}, a list holds {len(ref)}"
+            elif w[0] == "recs":
+                exp = "list " + "|".join(show(r) for r in ref)
+                if line != exp:
+                    return f"op {i} recs: the file presents {line!r}, the list of records is {exp!r}"
+            elif w[0] in ("get", "pop"):
+                j = int(w[1]) if len(w) > 1 else -1
+                p = idx(j, len(ref))
+                if not 0 <= p < len(ref):
+                    if line != "err IndexError":
+                        return f"op {i} `{op}`: {line!r}, a list raises IndexError"
+                elif ref[p] is None:
+                    if not line.startswith("err "):
+                        return f"op {i} `{op}`: {line!r} for a line that does not load"
+                else:
+                    if line != "ret " + show(ref[p]):
+                        return f"op {i} `{op}`: {line!r}, the list holds {show(ref[p])!r} there"
+                    if w[0] == "pop":
+                        del ref[p]
+            elif w[0] == "set":
+                p = idx(int(w[1]), len(ref))
+                if 0 <= p < len(ref):
+                    if line != "ok":
+                        return f"op {i} `{op}`: {line!r}"
+                    ref[p] = [dec_str(x) for x in w[2:]]
+                elif line != "err IndexError":
+                    return f"op {i} `{op}`: {line!r}, a list raises IndexError"
+            elif w[0] == "insert":
+                if line != "ok":
+                    return f"op {i} `{op}`: {line!r}"
+                ref.insert(int(w[1]), [dec_str(x) for x in w[2:]])
+            elif w[0] == "append":
+                if line != "ok":
+                    return f"op {i} `{op}`: {line!r}"
+                ref.append([dec_str(x) for x in w[1:]])
+            elif w[0] == "del":
+                p = idx(int(w[1]), len(ref))
+                if 0 <= p < len(ref):
+                    if line != "ok":
+                        return f"op {i} `{op}`: {line!r}"
+                    del ref[p]
+                elif line != "err IndexError":
+                    return f"op {i} `{op}`: {line!r}, a list raises IndexError"
+            elif w[0] == "reverse":
+                if line == "ok":
+                    ref.reverse()
+                elif all(r is not None for r in ref):
+                    return f"op {i} reverse: {line!r} although every line loads"
+                else:
+                    ref = None  # an exception half-way leaves a partially reversed file: what follows is the model's business
+            elif w[0] == "save" and dec_str(w[1]) == "\n" and line.startswith("ret ") and all(r is not None for r in ref):
+                text = dec_str(line[4:])
+                lines = text.split("\n")
+                if lines and lines[-1] == "":
+                    lines.pop()
+                back = [load(l) for l in lines]
+                if back != ref:
+                    return (f"op {i} save: the saved file {text!r} reopens to {back}, the file held {ref}")
+        return None
+
     def gen(self, rng, n, tier):
         e = enc_str
         for k in range(n):
+            if rng.random() < 0.18:
+                yield self.gen_recfile_case(rng)
+                continue
             ops = []
             for _ in range(rng.randint(4, 14)):
                 r = rng.random()
@@ -245,6 +514,8 @@ class Prop(SeqProp):
         return os.path.join(self.scratch, name)
 
     def run_impl(self, case):
+        if case.meta.get("machine") == "recfile":
+            return self.run_recfile_impl(case)
         cl = classes(fresh=True)
         out = []
         for op in case.ops:
@@ -470,7 +741,19 @@ class Prop(SeqProp):
 
     # ---- oracle ------------------------------------------------------------------------------------------------------------
     def run_model(self, cases):
-        res = SeqProp.run_model(self, cases)
+        res = [None] * len(cases)
+        for machine in ("records", "recfile"):
+            idx = [i for i, c in enumerate(cases) if c.meta.get("machine", "records") == machine]
+            if not idx:
+                continue
+            old = self.model
+            self.model = machine
+            try:
+                outs = SeqProp.run_model(self, [cases[i] for i in idx])
+            finally:
+                self.model = old
+            for i, o in zip(idx, outs):
+                res[i] = o
         for c, out in zip(cases, res):
             for i, op in enumerate(c.ops):
                 if op.startswith("jdec ") and out[i].startswith("ret "):
@@ -480,6 +763,8 @@ class Prop(SeqProp):
 
     def oracle(self, case, impl_out):
         import csv, io
+        if case.meta.get("machine") == "recfile":
+            return self.oracle_recfile(case, impl_out)
         for i, (op, line) in enumerate(zip(case.ops, impl_out)):
             w = op.split()
             if w[0] in ("typed", "json", "recfile"):
